@@ -60,7 +60,7 @@ def multi_scenarios(rnd, n, **flags):
     # 23 distinct holders (one Total line each in the balances table of the Tax sheet)
     many = [{"tab": "IN", "ts": f"2020-01-{i + 1:02d}T10:00:00+00:00", "ex": "Coinbase", "ho": f"H{i:02d}", "type": "buy", "spot": "100", "amount": "1"} for i in range(23)]
     many.append({"tab": "OUT", "ts": "2020-03-01T10:00:00+00:00", "ex": "Coinbase", "ho": "H00", "type": "sell", "spot": "200", "amount": "0.5", "fee": "0"})
-    out.append({"assets": {"B1": many}})
+    out.append({"assets": {"B1": many}, "holders": [f"H{i:02d}" for i in range(23)]})
     for _ in range(n):
         k = rnd.choice([1, 2, 2, 3])
         sc = {"assets": {}}
